@@ -115,6 +115,13 @@ func workerMain(args []string) int {
 		if f == nil {
 			continue
 		}
+		if c04Hung {
+			// a call never returned: a goroutine is still stuck inside the library and
+			// process-global state may be poisoned; report this violation and stop
+			res.Violations = append(res.Violations, &Violation{Property: prop, Engine: e.Name(), Class: f.Class, Detail: f.Detail,
+				Seed: seed, Index: i, Scenario: mustJSON(sc), Log: append([]string{}, ctx.Log...), LogDigest: ctx.LogDigest()})
+			break
+		}
 		if len(res.Violations) >= maxViol {
 			ctx.Count("violations_beyond_cap", 1)
 			continue
